@@ -7,7 +7,10 @@ PROPS=${*:-C01 C02 C03 C04 C05 C06 C07 C08 C09 C10 C11 C12 C13 C14 C15 C16 C17 C
 cd /verif
 # evidence/ and replays/ describe the UNCHANGED tree: keep them out of the way while a seeded change is tried
 BK=$(mktemp -d /verif/.seeded_backup.XXXX); cp -r evidence replays $BK/ 2>/dev/null
-trap 'git -C /repo checkout -- . ; rm -rf /verif/evidence /verif/replays; mv $BK/evidence $BK/replays /verif/ 2>/dev/null; rmdir $BK; echo "[reverted /repo, restored evidence/ and replays/]"' EXIT INT TERM
+DONE=0
+cleanup() { [ $DONE = 1 ] && return; DONE=1; git -C /repo checkout -- . ; rm -rf /verif/evidence /verif/replays; mv $BK/evidence $BK/replays /verif/ 2>/dev/null; rmdir $BK; echo "[reverted /repo, restored evidence/ and replays/]"; }
+trap cleanup EXIT
+trap 'cleanup; exit 130' INT TERM
 git -C /repo diff --quiet || { echo "/repo is dirty"; exit 2; }
 git -C /repo apply "/verif/seeded/$ID/patch.diff" || { echo "patch does not apply"; exit 2; }
 echo "== repo suite with the change"
